@@ -12,7 +12,8 @@ EXPLANATION = ("R17.1 writer and reader tables agree: the lower-cased Display na
                "(nameless) entry from the END of the sorted filter vector, where level_sort puts it, and list every named entry; R17.2 no may-panic "
                "site reachable from parse / from_toml / to_toml / Display / TryFrom other than the is_empty-guarded index; R17.3 parse returns Ok only "
                "on the `no error text` edge and Err(Parse(text, spec)) otherwise; a segment that produced an error text is never pushed to the result. R17.1 also (rows): every entry with a module name is written on every path, whatever else the path examines."
-               " R17.1 also (rows of parse): every pushed level is the result of parse_level_filter or the documented `all levels` of a bare name; every stored module name is a piece of the input (split / trim / copy only).")
+               " R17.1 also (rows of parse): every pushed level is the result of parse_level_filter or the documented `all levels` of a bare name; every stored module name is a piece of the input (split / trim / copy only)."
+               " R17.4 (features specfile*): synchronize_subscriber_with_specfile only reads an existing file and activates from_toml of its content; a missing file is created with create_new and receives to_toml(initial specification); nothing is activated in that case.")
 ASSUMPTIONS = ["Display of log::LevelFilter prints OFF/ERROR/WARN/INFO/DEBUG/TRACE (log crate)", "toml and regex crates"]
 NOT_DECIDED = ["semantic equivalence of the re-parsed specification for all specifications and strings", "what counts as malformed", "toml/regex behaviour"]
 FLOORS = {'R17.1': 12, 'R17.2': 1, 'R17.3': 3}
@@ -27,7 +28,65 @@ def m_lower(I, st, fr, t, args, name):
     return Const(v.v.lower()) if isinstance(v, Const) and isinstance(v.v, str) else NotImplemented
 
 
+def specfile_sync(R, ctx, rule='R17.4'):
+    """start_with_specfile: decision rows of synchronize_subscriber_with_specfile.  An existing file is only READ and the specification activated is
+    from_toml(<content of that very file>); a missing file is created with create_new (never truncating an existing file), its content is
+    to_toml(<the subscriber's initial specification>) and no specification is activated; a wrong extension touches nothing."""
+    f = ctx.f
+    b = ctx.opt_body(r'^logger::synchronize_subscriber_with_specfile$')
+    if b is None:
+        return
+    EFF = [r'LogSpecSubscriber::(set_new_spec|initial_spec)$', r'LogSpecification::(from_toml|to_toml)$', r'log_spec_string_from_file$', r'OpenOptions::\w+$',
+           r'DirBuilder::create$', r'^std::fs::(write|remove_file|rename|File::create|copy)$']
+    bad = None
+    n_read = n_create = 0
+    for r in FDI(f, effects=EFF, no_inline=EFF, max_rows=4000).run(b.path):
+        if r.undecided:
+            raise CheckError(f"{rule}: synchronize_subscriber_with_specfile UNDECIDED {r.undecided}")
+        names = [e[0].split('::')[-1] for e in r.effects]
+        ok = repr(r.result).replace('$', '').startswith('Result::Ok')
+        isf = next((v for a, v in r.cond if 'Path::is_file(' in a), None)
+        if isf is None:
+            if r.effects and not ok:
+                bad = f"effects {names} before the file's existence was examined"
+            continue
+        sets = [e for e in r.effects if e[0].endswith('set_new_spec')]
+        opens = [e for e in r.effects if e[0].endswith('OpenOptions::open')]
+        wr = [e for e in r.effects if re.search(r'to_toml$|^std::fs::(write|remove_file|rename|File::create|copy)$', e[0])]
+        if isf is True:
+            if opens or wr:
+                bad = f"an existing specfile is opened for writing / written ({names})"
+            if ok:
+                n_read += 1
+                if len(sets) != 1:
+                    bad = f"existing specfile: {len(sets)} specifications activated on a successful path"
+            for e in sets:
+                src = r.long(e[1][1])
+                if 'from_toml#' not in src or 'log_spec_string_from_file#' not in r.long(src) or 'specfile' not in r.long(src):
+                    bad = f"the specification activated is `{src[:80]}`, not from_toml(content of the given specfile)"
+        else:
+            if sets:
+                bad = "a specification is activated although the specfile did not exist (the initial specification is what is written, nothing is read)"
+            flags = {e[0].split('::')[-1]: e[1][1] for e in r.effects if re.search(r'OpenOptions::(write|create_new|create|truncate|append|read)$', e[0])}
+            for e in opens:
+                if flags.get('create_new') != 'True' or flags.get('write') != 'True' or flags.get('truncate') == 'True' or flags.get('create') == 'True':
+                    bad = f"the new specfile is opened with {flags}: only create_new guarantees that a file which appeared meanwhile is not overwritten"
+                if 'specfile' not in e[1][1]:
+                    bad = f"the file created is `{e[1][1][:60]}`, not the given specfile"
+            if ok:
+                n_create += 1
+                tt = [e for e in r.effects if e[0].endswith('to_toml')]
+                if len(tt) != 1 or 'initial_spec#' not in tt[0][1][0] or 'OpenOptions::open#' not in tt[0][1][1]:
+                    bad = f"the content written is not to_toml(initial specification) into the file just created ({[x[1] for x in tt]})"
+    if not bad and (n_read < 1 or n_create < 1):
+        raise CheckError(f"{rule}: form of synchronize_subscriber_with_specfile not recognised (read rows {n_read}, create rows {n_create})")
+    R.check(rule, f"{b.path}|read-or-create", not bad, f"{n_read} read rows activate from_toml(file content); {n_create} create rows write to_toml(initial spec) with create_new",
+            f"synchronize_subscriber_with_specfile: {bad}", where=b.loc())
+
+
 def run(R, ctx):
+    R.rule('R17.4', 'TABLE(start with a specfile): existing file read and activated, missing file created with the initial specification')
+    specfile_sync(R, ctx)
     f, cg = ctx.f, ctx.cg
     R.rule('R17.1', 'CONST-AGREE(renderer tables, parser tables)')
     R.rule('R17.2', 'MAY-PANIC-INVENTORY restricted to the text forms')
